@@ -819,3 +819,46 @@ M('c04-k2-to-dict-alias-code-from-title', 'C04', 'R4', 'falcon/http_error.py',
   "        obj = obj_type()\n        doc = obj\n\n        doc['title'] = self.title\n\n        if self.description is not None:\n            doc['description'] = self.description\n\n        if self.code is not None:\n            doc['code'] = self.title\n")
 M('c04-k2-error-status-local-2xx', 'C04', 'R4', 'falcon/errors.py',
   "        super().__init__(\n            status.HTTP_410,\n", "        gone = status.HTTP_203\n        super().__init__(\n            gone,\n")
+# k3 (k3-c06-1): `d[k] if k in d else c` / `k in d and d[k]` / `if k not in d: .. else: d[k]` are read as guarded lookups by R6;
+# refactoring + break: the guard names ANOTHER key, ANOTHER mapping, or the lookup sits on the arm where the key is absent
+_QS_TRY = """        try:
+            self.query_string = env['QUERY_STRING']
+        except KeyError:
+            self.query_string = ''
+            self._params: Dict[str, Union[str, List[str]]] = {}
+        else:
+            if self.query_string:
+                self._params = parse_query_string(
+                    self.query_string,
+                    keep_blank=self.options.keep_blank_qs_values,
+                    csv=self.options.auto_parse_qs_csv,
+                )
+
+            else:
+                self._params = {}
+"""
+_QS_TAIL = """        if self.query_string:
+            self._params: Dict[str, Union[str, List[str]]] = parse_query_string(
+                self.query_string,
+                keep_blank=self.options.keep_blank_qs_values,
+                csv=self.options.auto_parse_qs_csv,
+            )
+        else:
+            self._params = {}
+"""
+M('c04-k3-query-string-ifexp-guard-tests-another-key', 'C04', 'R6', 'falcon/request.py', _QS_TRY,
+  "        self.query_string = env['QUERY_STRING'] if 'PATH_INFO' in env else ''\n" + _QS_TAIL, also=('C06',))
+M('c04-k3-query-string-ifexp-lookup-on-the-absent-arm', 'C04', 'R6', 'falcon/request.py', _QS_TRY,
+  "        self.query_string = env['QUERY_STRING'] if 'QUERY_STRING' not in env else ''\n" + _QS_TAIL, also=('C06',))
+M('c04-k3-query-string-ifexp-guard-tests-another-mapping', 'C04', 'R6', 'falcon/request.py', _QS_TRY,
+  "        self.query_string = env['QUERY_STRING'] if 'QUERY_STRING' in self.options.__dict__ else ''\n" + _QS_TAIL, also=('C06',))
+M('c04-k3-query-string-or-chain-lookup-when-absent', 'C04', 'R6', 'falcon/request.py', _QS_TRY,
+  "        self.query_string = ('QUERY_STRING' in env or env['QUERY_STRING']) and ''\n" + _QS_TAIL, also=('C06',))
+M('c04-k3-query-string-else-arm-of-in-test', 'C04', 'R6', 'falcon/request.py', _QS_TRY,
+  "        if 'QUERY_STRING' in env:\n            self.query_string = ''\n        else:\n            self.query_string = env['QUERY_STRING']\n" + _QS_TAIL, also=('C06',))
+# k3: a private module constant as the answer of req.accept is folded by R8; refactoring + break: the constant is blank
+M2('c04-k3-accept-module-constant-blank', 'C04', 'R8', [
+    {'file': 'falcon/request.py',
+     'old': "            return self.env['HTTP_ACCEPT'] or '*/*'\n        except KeyError:\n            return '*/*'\n",
+     'new': "            return self.env['HTTP_ACCEPT'] or _ACCEPT_ANYTHING\n        except KeyError:\n            return _ACCEPT_ANYTHING\n"},
+    {'file': 'falcon/request.py', 'old': "\nclass Request:\n", 'new': "\n_ACCEPT_ANYTHING = ''\n\n\nclass Request:\n"}])
